@@ -216,7 +216,10 @@ def finish(rep, level='proof', extra_cov=None):
             print(line)
             printed.add(line)
     code = 0
-    rdir = os.path.join(VERIF, 'replays', rep.prop)
+    rdir = os.path.join(os.environ.get('VERIF_REPLAY_DIR') or os.path.join(VERIF, 'replays'), rep.prop)
+    if os.path.isdir(rdir):
+        import shutil
+        shutil.rmtree(rdir, ignore_errors=True)
     for v in violations:
         os.makedirs(rdir, exist_ok=True)
         if isinstance(v, Obl):
@@ -290,8 +293,9 @@ def write_evidence(rep, level, nviol, known, extra_cov):
         cov.update(extra_cov)
     ev = {'property_id': rep.prop, 'tier': rep.tier, 'seed': rep.seed, 'level': level, 'coverage': cov,
           'assumptions': rep.assumptions, 'wall_s': round(time.time() - rep.t0, 2), 'violations': nviol}
-    os.makedirs(os.path.join(VERIF, 'evidence'), exist_ok=True)
-    with open(os.path.join(VERIF, 'evidence', rep.prop + '.json'), 'w') as f:
+    evdir = os.environ.get('VERIF_EVIDENCE_DIR') or os.path.join(VERIF, 'evidence')
+    os.makedirs(evdir, exist_ok=True)
+    with open(os.path.join(evdir, rep.prop + '.json'), 'w') as f:
         json.dump(ev, f, indent=1, default=str)
 
 
